@@ -102,6 +102,8 @@ fn run_case(ctx: &WorkerCtx, rep: &mut WorkerReport, case_seed: u64, blocks: u64
     let (net, _) = net_for_shard(ctx.shard);
     let mut rng = Rng::new(case_seed ^ 0x5eed);
     let mut w = World::new(case_seed, rpc::chain_id_for(net));
+    let scale = scale_world(&mut w, case_seed, true, false);
+    rep.set_add("scale_profiles", scale);
     w.profile.p_empty_block = 15;
     w.profile.p_future_nonce = 40;
     let mut d = new_driver("C05");
